@@ -482,6 +482,10 @@ func (s *Smr) handleReceivedVoteMsg(msg *xuperp2p.XuperMessage) error {
 		return EmptyTarget
 	}
 
+	// 自己给自己投票将自动忽略, 包括最先到达的一票: CalVotesThreshold已经隐式计入了自己
+	if voteQC.SignInfos[0].Address == s.address {
+		return nil
+	}
 	// 存入本地voteInfo内存，查看签名数量是否超过2f+1
 	var VoteLen int
 	// 注意隐式，若!ok则证明签名数量为1，此时不可能超过2f+1
